@@ -229,6 +229,9 @@ class Interp:
             self.stats["summaries"] += 1
             return self.summaries[key](self, *args, **kwargs)
         if isinstance(f, types.FunctionType):
+            if f.__code__.co_flags & 0x20 and not (deep_symbolic(args) or deep_symbolic(kwargs)):
+                # generator functions (the source generator of compiler.py) work on definitions only: run natively
+                return self.native(f, args, kwargs)
             node, defcls = SOURCES.lookup(f)
             if node is not None:
                 return self.call_ast(node, f, args, kwargs, f.__globals__, defcls=defcls)
